@@ -13,6 +13,7 @@ import (
 	"errors"
 	"fmt"
 	"io"
+	"math"
 	"strconv"
 	"strings"
 	"sync"
@@ -657,6 +658,15 @@ func (r *Run) olderOpen(a *actor) []int {
 	return open
 }
 
+// tlcExp is an expiry interval as it is logged: TLC integers are 32 bit, intervals of 2^31 seconds or more are logged
+// minus 2^31 (with msgexpbig = true).
+func tlcExp(v int64) int64 {
+	if v > math.MaxInt32 {
+		return v - (1 << 31)
+	}
+	return v
+}
+
 func propsU32(p *uint32) int64 {
 	if p == nil {
 		return -1
@@ -746,7 +756,7 @@ func (a *actor) logRecv(p *mw.Packet) {
 			tag = tag[:i]
 		}
 		rec.Log(inproc.Event{"e": "deliver", "k": a.k, "topic": topic, "rawtopic": p.Topic, "alias": alias, "tag": tag,
-			"qos": int(p.QoS), "retain": p.Retain, "dup": p.Dup, "pid": int(p.PacketID), "ids": ids, "msgexp": msgexp,
+			"qos": int(p.QoS), "retain": p.Retain, "dup": p.Dup, "pid": int(p.PacketID), "ids": ids, "msgexp": tlcExp(msgexp), "msgexpbig": msgexp > math.MaxInt32,
 			"size": len(p.Raw), "props": canonRecv(p.Props)})
 		if p.QoS > 0 {
 			a.mu.Lock()
@@ -1041,7 +1051,7 @@ func (r *Run) publish(s *Step) {
 	}
 	fsz := fwdSize(s.Topic, s.Fq, pl, s.Props)
 	r.Rec.Log(inproc.Event{"e": "publish", "fsize": fsz, "k": s.K, "pid": int(pid), "qos": s.Qos, "retain": s.Retain, "dup": s.Dup, "topic": s.Topic,
-		"lv": lv(s.Topic), "sys": isSys(s.Topic), "tag": s.Tag, "empty": len(pl) == 0, "msgexp": s.MsgExp, "alias": s.Alias,
+		"lv": lv(s.Topic), "sys": isSys(s.Topic), "tag": s.Tag, "empty": len(pl) == 0, "msgexp": tlcExp(s.MsgExp), "msgexpbig": s.MsgExp > math.MaxInt32, "alias": s.Alias,
 		"notopic": s.NoTopic, "size": mw.Size(p), "props": props})
 	if err := a.c.Send(p); err != nil {
 		r.note("publish send error: " + err.Error())
@@ -1089,7 +1099,7 @@ func fwdSize(topic string, fq int, payload []byte, ap *AppProps) int {
 
 func (r *Run) apipublish(topic string, qos int, retain bool, tag string, msgexp int64, ap *AppProps) {
 	r.Rec.Log(inproc.Event{"e": "apipublish", "props": ap.canon(), "alias": 0, "notopic": false, "size": 0, "fsize": fwdSize(topic, qos, []byte(tag), ap), "k": 0, "pid": 0, "qos": qos, "retain": retain, "dup": false, "topic": topic, "lv": lv(topic),
-		"sys": isSys(topic), "tag": tag, "empty": len(tag) == 0, "msgexp": msgexp})
+		"sys": isSys(topic), "tag": tag, "empty": len(tag) == 0, "msgexp": tlcExp(msgexp), "msgexpbig": msgexp > math.MaxInt32})
 	msg := &gmqtt.Message{Topic: topic, QoS: uint8(qos), Retained: retain, Payload: []byte(tag), MessageExpiry: uint32(msgexp)}
 	if ap != nil {
 		msg.PayloadFormat, msg.ContentType, msg.ResponseTopic, msg.CorrelationData = byte(ap.Pf), ap.Ct, ap.Rt, []byte(ap.Cd)
